@@ -36,12 +36,16 @@ package nodef
 //@   let k4 = decStrK(src, q3, 3, false, d0)
 //@   let q4 = (k4 == 0 ? decStrP(src, q3, 3, d0) : seekP(src, q3, 3, d0))
 //@   let ok4 = ok3 && (k4 == 0 || (k4 == 1 && (seekK(src, q3, 3, d0) == 2 || (seekK(src, q3, 3, d0) == 1 && seekCanon(src, q3, 3, d0)))))
-//@   opaque [C04] *
+//@   opaque [C04,C06] *
 //@   perreturn
 //@   ensures [C04] (ok1 && err == nil) ==> st.Application == (k1 == 0 ? decStrV(src, q0, 0, d0) : old(st.Application))
+//@   ensures [C06] (k1 == 2) ==> err != nil
 //@   ensures [C04] (ok2 && err == nil) ==> st.ServerName == (k2 == 0 ? decStrV(src, q1, 1, d0) : old(st.ServerName))
+//@   ensures [C06] (ok1 && k2 == 2) ==> err != nil
 //@   ensures [C04] (ok3 && err == nil) ==> st.Pid == (k3 == 0 ? decIntV(src, q2, 2, d0) : old(st.Pid))
+//@   ensures [C06] (ok2 && k3 == 2) ==> err != nil
 //@   ensures [C04] (ok4 && err == nil) ==> st.Adapter == (k4 == 0 ? decStrV(src, q3, 3, d0) : old(st.Adapter))
+//@   ensures [C06] (ok3 && k4 == 2) ==> err != nil
 //@   ensures [C04] ok4 ==> (err == nil && readBuf.buf.i == q4)
 //@   safety [C05]
 //
@@ -67,4 +71,18 @@ package nodef
 //@   perreturn
 //@   modifies buf.buf.bytes
 //@   ensures [C03] err == nil && buf.buf.bytes == pre
+//@   safety [C03]
+//
+//@ func (*ServerInfo).WriteBlock
+//@   requires st != nil && validB(buf) && len(st.Application) < 4294967296 && len(st.ServerName) < 4294967296 && len(st.Adapter) < 4294967296
+//@   let e0 = buf.buf.bytes ++ head(StructBegin, tag)
+//@   let e1 = e0 ++ encString(0, st.Application)
+//@   let e2 = e1 ++ encString(1, st.ServerName)
+//@   let e3 = e2 ++ encInt32(2, st.Pid)
+//@   let e4 = (st.Adapter != "" ? e3 ++ encString(3, st.Adapter) : e3)
+//@   let pre = e4 ++ head(StructEnd, 0)
+//@   opaque head encInt8 encInt16 encInt32 encInt64 encString encBool
+//@   perreturn
+//@   modifies buf.buf.bytes
+//@   ensures [C03] result == nil && buf.buf.bytes == pre
 //@   safety [C03]
